@@ -22,7 +22,7 @@ INF = float("inf")
 def plan(tier):
     if tier == "thorough":
         return dict(rounds=960, examples_per_round=100, wall_cap=3000, job_timeout=1500)
-    return dict(rounds=64, examples_per_round=50, wall_cap=420, job_timeout=600)
+    return dict(rounds=128, examples_per_round=60, wall_cap=420, job_timeout=600)
 
 
 @st.composite
